@@ -123,7 +123,10 @@ impl Kinematics for Parallelogram {
     }
 
     fn kinematic_singularity(&self, qs: &Joints) -> Option<Singularity> {
-        self.robot.kinematic_singularity(qs)
+        let mut joints = *qs;
+        // The wrapped robot sees the coupled joint reduced by the influence of the driven joint
+        joints[self.coupled] -= self.scaling * joints[self.driven];
+        self.robot.kinematic_singularity(&joints)
     }
 
     fn constraints(&self) -> &Option<Constraints> {
